@@ -21,7 +21,7 @@ import (
 func init() {
 	fw.Register(&fw.Check{
 		ID: "C14", Level: "model_checking", InProcess: true,
-		Rule: "explicit-state BFS over the real scanner.Next: a state is the scanner's abstract key (step function, top of step stack, event stack with capped distances, pending finds, parameter predicates, line-prefix/look-behind context); from every reachable state every token of the alphabet (all 256 bytes + atomic multi-byte tokens) is executed on a fresh scanner; a case is non-trivial when the run is error-free and emits at least one lexeme; distinct = distinct abstract states",
+		Rule: "explicit-state BFS over the real scanner.Next: a state is the scanner's abstract key (step function, top of step stack, event stack with capped distances, pending finds, parameter predicates, line-prefix/look-behind context); from every reachable state every token of the alphabet (all 256 bytes + atomic multi-byte tokens) is executed on a fresh scanner; a case is non-trivial when the run is error-free and emits at least one lexeme; distinct = distinct abstract states ; a parameter lexeme that begins with a quote is exactly one quoted value",
 		Assume: []string{"partial parameter text is abstracted: its only lasting effect is on the three parameter predicates, each combination of which is reached through atomic parameter tokens",
 			"schema/enum bodies are atomic tokens (the scanner hands the rest of the file to the schema library in one jump)",
 			"step stack is keyed by its top 4 entries (the request/response body states leak one never-popped entry per Body child)"},
